@@ -15,6 +15,8 @@ from report import Report
 
 PROPS = {
     'C01': ('c01', 'proof', ['SUNalg', 'instantiate']),
+    'C02': ('c02', 'proof', ['SUNalg', 'instantiate']),
+    'C03': ('c03', 'proof', ['SUNalg', 'instantiate']),
 }
 
 
